@@ -335,8 +335,10 @@ def exhaustive(acc, role, state, nslots, part, parts):
 def bulk(acc, role, n):
     """A long journal (more rows than any batch / page size one would pick) requested as a whole, from the middle, and bounded."""
     slots = (["app"] * 9 + ["hb"]) * (n // 10)
-    L = len(slots) + 2
-    run_journal(acc, role, "active", slots, [(1, 0), (L - 1200, 0), (2, L - 3), (L - 5, 0)], "bulk")
+    for k in range(95, len(slots), 190):
+        slots[k] = "hole-skip"  # unused numbers inside the journal
+    L = len(slots) + 2 + 2 * sum(1 for x in slots if x == "hole-skip")
+    run_journal(acc, role, "active", slots, [(1, 0), (L - 1200, 0), (2, L - 3), (L - 5, 0), (3, 3 + 512), (3, 2 + 512), (4, 4 + 1024), (255, 262), (9, 11), (99, 101), (999, 1001)], "bulk")
     acc.klass("bulk-journal")
 
 
